@@ -19,6 +19,10 @@ CLAIMS.update({
                 text=_SUBS % "C21" + "Monitor: every response answers the oldest queued request, sequence numbers increase per subscription, "
                      "delivered values are a prefix of the values the item sampled and equal them whenever nothing is pending (while "
                      "publishing stayed enabled, the item stayed alive and its queue never overflowed)."),
+    "C24": dict(engine="subs", level="model_checking", note=SUBS_NOTE,
+                text=_SUBS % "C24" + "Monitor: the projected item queue never exceeds its size and always equals the queue the statement "
+                     "describes (append; when full drop the oldest or replace the newest, overflow marked; modify keeps the newest "
+                     "entries that fit and never fails); every delivered batch equals the queue that was drained."),
     "C26": dict(engine="subs", level="model_checking", note=SUBS_NOTE,
                 text=_SUBS % "C26" + "Monitor: no timer tick or publish request fails, for clocks that jump backwards/forwards and request "
                      "timestamps in the past/future; BadTimeout only when now - timestamp exceeds the request's timeout."),
@@ -45,7 +49,7 @@ NOT_APPLICABLE = {
 ENGINES = [
     {"name": "revise", "path": "/verif/harness/src/e_revise.rs", "serves_properties": ["C23"],
      "kind_free_text": "sends each point of spec/Revise.tla's input space through the real subscription / monitored item services; judged by spec/TraceRevise.tla"},
-    {"name": "subs", "path": "/verif/harness/src/e_subs.rs", "serves_properties": ["C21", "C22", "C26", "C27", "C40"],
+    {"name": "subs", "path": "/verif/harness/src/e_subs.rs", "serves_properties": ["C21", "C22", "C24", "C26", "C27", "C40"],
      "kind_free_text": "replays behaviours of spec/Subscription.tla on a real server connection (TcpTransport + MessageHandler + Session + Subscriptions) without a socket; observations judged by spec/TraceSubs.tla + spec/SubsProps.tla"},
 ]
 NOTES = ("All checks: ./check <id> --tier quick|thorough. Specifications in /verif/spec (L1 subsystem specifications, L2 property "
